@@ -36,10 +36,26 @@ TraceHook ==
        [] OTHER -> Other
 
 ModeProp(s) == IF s.mode = "check" THEN "C13" ELSE "C14"
+Kind(s) == IF Has(s, "kind") THEN s.kind ELSE "files"
+
+(* C15: the configuration applied to each target is one the documented search allows *)
+Labels(ms) == {"k" \o ToString(ms[i]) : i \in DOMAIN ms}
+ConfigFails(s, fin) ==
+  UNION { LET tg == s.targets[k]  want == Labels(s.expect[k]) IN
+          IF tg.kind \in {"stdin", "stdinpath"}
+          THEN (IF ~Has(fin, "stdout_matches") \/ SeqToSet(fin.stdout_matches) \cap want = {} THEN {"stdin_config"} ELSE {})
+          ELSE (IF ~HasObs(fin, tg.path) THEN {"target_missing"}
+                ELSE IF SeqToSet(FileObs(fin, tg.path).matches) \cap want = {} THEN {"config_applied"} ELSE {})
+        : k \in DOMAIN s.targets } \cup
+  (IF fin.exit # 0 THEN {"exit"} ELSE {})
+
 TraceFinal ==
   /\ Next1 /\ E.ev = "Final" /\ Final
-  /\ LET fs == FinalFails(sc, E, written, exited) IN
-     Report(E, {V(ModeProp(sc), w) : w \in fs} \cup {V("C19", w) : w \in fs})
+  /\ CASE Kind(sc) = "files" ->
+            LET fs == FinalFails(sc, E, written, exited) IN
+            Report(E, {V(ModeProp(sc), w) : w \in fs} \cup {V("C19", w) : w \in fs})
+       [] Kind(sc) = "config" -> Report(E, {V("C15", w) : w \in ConfigFails(sc, E)})
+       [] OTHER -> TRUE
 
 TraceInit == CInit /\ l = 1
 TraceNext == TraceStart \/ TraceHook \/ TraceFinal
